@@ -566,6 +566,9 @@ WALL_BUDGET_S = 60  # machinery guard only: an endless loop is deterministic, th
 HOT = frozenset(["readline", "tell", "len", "append", "isinstance", "read", "read1", "readinto", "join", "encode", "decode", "startswith", "endswith", "get", "int", "min", "max", "ord", "chr", "decompress", "crc32", "unpack", "unpack_from", "pack", "getattr", "hasattr"])
 
 
+_VALUE_TYPES = (str, bytes, bytearray, list, set, frozenset, dict, tuple)
+
+
 class Observer:
     """sys.monitoring CALL callback: before every call of a callable named in WATCH (wherever the call is made) the
     directory is looked at; at the crash_at-th such call the crash is injected."""
@@ -576,6 +579,8 @@ class Observer:
         self.fx, self.d, self.fmt, self.tmp_sig, self.pool = fx, d, fmt, tmp_sig, pool
         self.crash_at, self.kill = crash_at, kill
         self.events = []  # (abstract snapshot, number of requests made so far) before each observed call
+        self.dump_path = None
+        self.debug = [] if os.environ.get("VERIF_C14_DEBUG") else None
         self.calls = 0
         self.changes = 0
         self.fired = False
@@ -612,6 +617,8 @@ class Observer:
             return sys.monitoring.DISABLE if name in HOT else None
         if code.co_filename == __file__:
             return None
+        if isinstance(getattr(fn, "__self__", None), _VALUE_TYPES) or getattr(fn, "__objclass__", None) in _VALUE_TYPES:
+            return None  # str.replace, list.remove, ...: same name as a file operation, cannot touch the directory
         fr = sys._getframe(1)
         while fr is not None:
             co = fr.f_code
@@ -622,6 +629,10 @@ class Observer:
             if co.co_name == "__del__":
                 # calls made by destructors: an exception raised there is swallowed by the interpreter
                 return None
+            if co.co_filename.startswith("<frozen importlib"):
+                # calls made while a module is imported lazily (first use of zipfile, encodings, ...): they happen in the
+                # first run of a process only and would shift the numbering of the observed calls between executions
+                return None
             fr = fr.f_back
         snap = snapshot(self.fx, self.d, self.fmt, self.tmp_sig)
         if self.events and core(self.events[-1][0]) != core(snap):
@@ -630,9 +641,15 @@ class Observer:
                 self.active = False
                 raise Hang()
         self.events.append((snap, len(self.pool.served)))
+        if self.debug is not None:
+            self.debug.append((name, os.path.basename(code.co_filename), code.co_name))
         if self.crash_at is not None and len(self.events) == self.crash_at and not self.fired:
             self.fired = True
             if self.kill:
+                self.active = False
+                if self.dump_path:
+                    with open(self.dump_path, "w", encoding="utf-8") as f:
+                        json.dump(self.events, f)
                 os._exit(77)
             self.active = False
             raise InjectedInterrupt()
@@ -757,8 +774,11 @@ def run_once(fx, d, p, script, crash=None, workdir=None):
     try:
         if crash and crash["kind"] == "kill":
             rf = os.path.join(workdir or os.path.dirname(d), "child-result.json")
-            if os.path.exists(rf):
-                os.remove(rf)
+            ef = os.path.join(workdir or os.path.dirname(d), "child-events.json")
+            for x in (rf, ef):
+                if os.path.exists(x):
+                    os.remove(x)
+            obs.dump_path = ef
             sys.stdout.flush()
             sys.stderr.flush()
             pid = os.fork()
@@ -776,6 +796,8 @@ def run_once(fx, d, p, script, crash=None, workdir=None):
             if code != 77:
                 raise tlc.MachineryError("kill injection at event %s did not fire (child exit %s)" % (crash["event"], code))
             res["end"] = "crashed"
+            with open(ef, "r", encoding="utf-8") as f:
+                obs.events = [(sn, n) for sn, n in json.load(f)]
         else:
             body()
     finally:
@@ -788,6 +810,7 @@ def run_once(fx, d, p, script, crash=None, workdir=None):
             net.download_http.__kwdefaults__["sleep"] = saved[3]["sleep"]
         _time.sleep = real_sleep
     res["events"] = obs.events
+    res["debug"] = obs.debug
     res["nreq"] = len(pool.served)
     res["sleeps"] = [int(s) for s in sleeps]
     res["requests"] = pool.kwargs
